@@ -79,7 +79,6 @@ var repackSkip = map[string]bool{
 var repackExempt = map[string]string{
 	"EDNS0_SUBNET.pack:slice-high (((*e.f2+8)-1)/8)+0 <= len((net.IP).Mask())":                                               "needs len((net.IP).Mask(m)) == len(ip) for a mask of matching length and (prefix+7)/8 <= that length; net.IP.Mask is outside the module",
 	"EDNS0_SUBNET.pack:slice-high (((*e.f2+8)-1)/8)+0 <= len((net.IP).Mask())#2":                                             "needs len((net.IP).Mask(m)) == len(ip) for a mask of matching length and (prefix+7)/8 <= that length; net.IP.Mask is outside the module",
-	"Msg.packBufferWithCompressionMap:slice-high off+0 <= len(msg)":                                                          "msg[:off] after four loops of packRR calls: needs the packers' 'returned offset <= len(msg)' through the loops' phis",
 	"SVCBMandatory.pack:bigendian (2*(rangeindex+1))+2 <= len(t11)":                                                          "the key list is captured by the sort closure, so its loads are separate heap cells; needs 2*i+2 <= 2*len(codes)",
 	"SVCBMandatory.pack$1:index i+1 <= len(*codes)":                                                                          "indices handed to a sort.Slice less function are within the slice that was sorted (contract of package sort)",
 	"SVCBMandatory.pack$1:index j+1 <= len(*codes)":                                                                          "indices handed to a sort.Slice less function are within the slice that was sorted (contract of package sort)",
